@@ -164,6 +164,9 @@ def string_to_number(text: str) -> Union[int, float]:
     return float(s)
 
 
+_MAX_SAFE_INT = 2**53
+
+
 def to_number(value: JSValue) -> Union[int, float]:
     """Convert a JavaScript value to number."""
     if value is UNDEFINED:
@@ -173,6 +176,13 @@ def to_number(value: JSValue) -> Union[int, float]:
     if isinstance(value, bool):
         return 1 if value else 0
     if isinstance(value, (int, float)):
+        if type(value) is int and not -_MAX_SAFE_INT <= value <= _MAX_SAFE_INT:
+            # A host integer beyond the exactly representable range takes part
+            # in arithmetic as the nearest double (or an infinity)
+            try:
+                return float(value)
+            except OverflowError:
+                return float("inf") if value > 0 else float("-inf")
         return value
     if isinstance(value, str):
         return string_to_number(value)
